@@ -10,6 +10,9 @@ import sys
 
 VERIF_ROOT = os.path.dirname(os.path.dirname(os.path.abspath(__file__)))
 REPO_ROOT = os.path.abspath(os.environ.get('VERIF_REPO') or '/repo')
+# evidence/ and replays/ are written under VERIF_ROOT, except in sensitivity runs against a
+# scratch copy (tools/mutant.sh sets VERIF_OUT so that committed evidence is never clobbered)
+OUT_ROOT = os.path.abspath(os.environ.get('VERIF_OUT') or VERIF_ROOT)
 GUARD = 'SIGTOOLS_VERIF'
 
 EXIT_OK = 0
